@@ -33,6 +33,8 @@ type vfReplayData struct {
 	Apps    []vfAppVal   `json:"apps"`
 	Choices []int        `json:"choices"`
 	Retry   bool         `json:"retry"`
+	Sched   []vfSchedEntry `json:"sched"`
+	BaseG   int          `json:"base_g"`
 }
 
 type vfStop struct{ why string }
@@ -486,15 +488,208 @@ func vfSameStorage(a, b interface{}) bool {
 	return pa != 0 && pa == pb
 }
 
-// ---- concurrency vocabulary (native best effort) ----
+// ---- concurrency: deterministic replay of the explored schedule ----
+//
+// The instrumented sources call vfPoint before every statement and vfSpawn/vfEnter/vfExit around go statements.
+// While a schedule script is active exactly one goroutine (the token holder) runs between points; the script says at
+// which point a goroutine is preempted, and which goroutine takes over when the holder blocks or exits. A holder that
+// reaches no point within the grace period is taken to be blocked (as the symbolic run says it is).
 
-func vfQuiesce()                      { time.Sleep(150 * time.Millisecond) }
-func vfGoroutineID() int              { return vfGID() }
+type vfSchedEntry struct {
+	Kind   string `json:"kind"`
+	From   int    `json:"from"`
+	Points int    `json:"points"`
+	To     int    `json:"to"`
+}
+
+var vfCtl struct {
+	mu       sync.Mutex
+	cond     *sync.Cond
+	active   bool
+	script   []vfSchedEntry
+	pos      int
+	holder   int
+	nextG    int
+	gids     map[int]int
+	points   map[int]int
+	progress time.Time
+	diverged string
+	gen      int
+}
+
+const vfGrace = 40 * time.Millisecond
+
+func vfCtlStart(script []vfSchedEntry, baseG int) {
+	c := &vfCtl
+	c.mu.Lock()
+	if c.cond == nil {
+		c.cond = sync.NewCond(&c.mu)
+	}
+	c.active = len(script) > 0
+	c.script = script
+	c.pos = 0
+	c.holder = 0
+	c.nextG = baseG
+	c.gids = map[int]int{vfGID(): 0}
+	c.points = map[int]int{}
+	c.progress = time.Now()
+	c.diverged = ""
+	c.gen++
+	gen := c.gen
+	c.mu.Unlock()
+	if len(script) > 0 {
+		go vfWatchdog(gen)
+	}
+}
+
+func vfCtlStop() {
+	c := &vfCtl
+	c.mu.Lock()
+	c.active = false
+	if c.cond != nil {
+		c.cond.Broadcast()
+	}
+	c.mu.Unlock()
+}
+
+func vfWatchdog(gen int) {
+	c := &vfCtl
+	for {
+		time.Sleep(4 * time.Millisecond)
+		c.mu.Lock()
+		if !c.active || c.gen != gen {
+			c.mu.Unlock()
+			return
+		}
+		if time.Since(c.progress) > vfGrace {
+			// the token holder is blocked (or asleep)
+			switch {
+			case c.pos >= len(c.script):
+				c.active = false
+			case c.script[c.pos].Kind == "block" && c.script[c.pos].From == c.holder:
+				c.holder = c.script[c.pos].To
+				c.pos++
+				c.progress = time.Now()
+			case c.script[c.pos].Kind == "exit" && c.script[c.pos].From == c.holder:
+				// the holder's vfExit has not been seen (still unwinding); give it more time
+				c.progress = time.Now()
+			default:
+				c.diverged = fmt.Sprintf("holder g%d made no progress but the schedule expects %+v (entry %d)", c.holder, c.script[c.pos], c.pos)
+				c.active = false
+			}
+			c.cond.Broadcast()
+		}
+		c.mu.Unlock()
+	}
+}
+
+func vfMyG() (int, bool) {
+	g, ok := vfCtl.gids[vfGID()]
+	return g, ok
+}
+
+// vfAwaitToken parks the calling goroutine until it holds the token (or the controller is switched off).
+// Caller holds c.mu.
+func vfAwaitToken(g int, atPoint bool) {
+	c := &vfCtl
+	for c.active {
+		if c.holder == g {
+			c.progress = time.Now()
+			if atPoint && c.pos < len(c.script) {
+				e := c.script[c.pos]
+				if e.Kind == "preempt" && e.From == g && e.Points == c.points[g] {
+					c.pos++
+					c.holder = e.To
+					c.progress = time.Now()
+					c.cond.Broadcast()
+					continue
+				}
+			}
+			if c.pos >= len(c.script) {
+				// schedule consumed: everybody runs freely from here on
+				c.active = false
+				c.cond.Broadcast()
+			}
+			return
+		}
+		c.cond.Wait()
+	}
+}
+
+func vfPoint(id int) {
+	c := &vfCtl
+	if !c.active {
+		return
+	}
+	c.mu.Lock()
+	g, ok := vfMyG()
+	if !ok || !c.active {
+		c.mu.Unlock()
+		return
+	}
+	c.points[g]++
+	vfAwaitToken(g, true)
+	c.mu.Unlock()
+}
+
+func vfSpawn() int {
+	c := &vfCtl
+	if !c.active {
+		return -1
+	}
+	c.mu.Lock()
+	defer c.mu.Unlock()
+	g := c.nextG
+	c.nextG++
+	return g
+}
+
+func vfEnter(g int) {
+	c := &vfCtl
+	if g < 0 || !c.active {
+		return
+	}
+	c.mu.Lock()
+	c.gids[vfGID()] = g
+	vfAwaitToken(g, false)
+	c.mu.Unlock()
+}
+
+func vfExit(g int) {
+	c := &vfCtl
+	if g < 0 || !c.active {
+		return
+	}
+	c.mu.Lock()
+	if c.active && c.holder == g && c.pos < len(c.script) {
+		e := c.script[c.pos]
+		if e.Kind == "exit" && e.From == g {
+			c.pos++
+			c.holder = e.To
+			c.progress = time.Now()
+			c.cond.Broadcast()
+		}
+	}
+	c.mu.Unlock()
+}
+
+func vfQuiesce() {
+	// let every other goroutine run until it blocks: natively, wait until nothing has moved for a while
+	time.Sleep(200 * time.Millisecond)
+}
+func vfGoroutineID() int {
+	c := &vfCtl
+	c.mu.Lock()
+	defer c.mu.Unlock()
+	if g, ok := c.gids[vfGID()]; ok {
+		return g
+	}
+	return -vfGID()
+}
 func vfSetMapOrder(mode int)          {}
 func vfSetDelayBound(d int)           {}
 func vfMemPoints(on bool)             {}
 func vfNow() int64                    { return time.Now().UnixNano() }
-func vfPoint(id int)                  {}
 func vfLockHeld(lock interface{}) int { return 2 }
 func vfMonitorWrites(lock interface{}, roots ...interface{}) {}
 func vfMonitorResult() (badWrites, badReads, writes, reads int) { return 0, 0, 1, 1 }
